@@ -530,7 +530,7 @@ func init() {
 		every := tier == "thorough"
 		return &Plan{
 			Prop: "C06", Level: "fault_enumeration", Engine: "crash",
-			Runs:   tierPick(tier, 400, 40000),
+			Runs:   tierPick(tier, 1600, 100000),
 			Budget: tierPick(tier, 55*time.Second, 14*time.Minute),
 			Rule: "each generated writing session (blockstore.ReadWrite or storage.StorageCar on a simulated disk, swarm-drawn options, optional prior history ending in Discard/Finalize + reopen) is run once to obtain its mutation log; then EVERY write boundary and, inside each write, " +
 				tierPick(tier, "every byte of writes <= 48 bytes (all v2-header, varint and CID writes) and offsets {1,2,mid,len-2,len-1} of longer ones", "every byte offset") +
